@@ -74,8 +74,20 @@ func generate(r *simkit.Rand, prop, tier string) *simkit.Plan {
 	if !recurring {
 		p.Knobs["monotone"] = 1
 	}
-	ops := []string{"block", "abort", "finalize", "rollback", "blockpr", "unblockpr", "restart", "snapshot", "checkpoint", "release", "tick"}
-	w := []int{r.Range(6, 12), r.Range(0, 2), r.Range(3, 9), r.Range(0, 3), r.Range(0, 2), r.Range(0, 2), r.Range(0, 1), 0, 0, 0, 0}
+	ops := []string{"block", "abort", "finalize", "rollback", "blockpr", "unblockpr", "restart", "snapshot", "checkpoint", "release", "tick", "emptyblock"}
+	w := []int{r.Range(6, 12), r.Range(0, 2), r.Range(3, 9), r.Range(0, 3), r.Range(0, 2), r.Range(0, 2), r.Range(0, 1), 0, 0, 0, 0, r.Range(0, 2)}
+	withWorkers := prop == "C10"
+	if prop == "C09" && p.Arm == "monotone" && r.Chance(0.3) {
+		// C09 next to real snapshot / checkpoint workers (they block pruning and share the hashes holder with commits)
+		p.Arm = "monotone+snapshots"
+		p.Knobs["bubble"] = 1
+		p.Knobs["snapbuf"] = int64([]int{1, 2, 10}[r.Intn(3)])
+		p.Knobs["maxsnap"] = int64(r.Range(1, 3))
+		p.Knobs["delay"] = int64(r.Intn(2))
+		w[4], w[5], w[6] = 0, 0, 0
+		w[7], w[8], w[9], w[10] = r.Range(1, 3), r.Range(1, 3), r.Range(4, 12), r.Range(1, 2)
+		withWorkers = true
+	}
 	n := r.Range(8, 60)
 	if tier == "thorough" && r.Chance(0.3) {
 		n = r.Range(60, 160) // thorough tier: a third of the runs are long (up to ~100 blocks)
@@ -96,6 +108,21 @@ func generate(r *simkit.Rand, prop, tier string) *simkit.Plan {
 		if faulty && (st.Op == "finalize" || st.Op == "rollback") && r.Chance(0.25) {
 			st.Fault = []string{"get_error", "remove_error", "ewl_get_error"}[r.Intn(3)]
 			st.FaultAt = r.Intn(5)
+		}
+		if withWorkers && (st.Op == "snapshot" || st.Op == "checkpoint") && r.Chance(0.5) {
+			// burst: while the workers are parked, commit and finalize (prune) right away, releasing them in between
+			p.Steps = append(p.Steps, st)
+			for k, m := 0, r.Range(2, 5); k < m; k++ {
+				p.Steps = append(p.Steps, simkit.Step{Op: "block", I: genMutations(r, nAcc, recurring)})
+				if r.Chance(0.6) {
+					p.Steps = append(p.Steps, simkit.Step{Op: "release", I: []int64{int64(r.Intn(1000))}})
+				}
+				p.Steps = append(p.Steps, simkit.Step{Op: "finalize"})
+				if r.Chance(0.6) {
+					p.Steps = append(p.Steps, simkit.Step{Op: "release", I: []int64{int64(r.Intn(1000))}})
+				}
+			}
+			continue
 		}
 		if workerFaults && st.Op == "release" && r.Chance(0.08) {
 			st.Fault = "get_error" // the released worker's next main-DB read fails (only armed during a checkpoint)
